@@ -5,6 +5,7 @@ import sys
 sys.path.insert(0, os.path.join(os.path.dirname(os.path.abspath(__file__)), '..'))
 import vlib
 from sem import check_common as CC
+import c01_ext
 
 ELEMENT = {'ifd', 'irr', 'arith_c', 'mod_c', 'unary_num', 'ceilfloor', 'round', 'power', 'nvl', 'cmp_c', 'between', 'in', 'isnull',
            'concat_c', 'str_un', 'length', 'substr', 'replace', 'not', 'bool_c', 'zip_arith', 'zip_cmp', 'zip_concat', 'zip_bool'}
@@ -12,14 +13,20 @@ ELEMENT = {'ifd', 'irr', 'arith_c', 'mod_c', 'unary_num', 'ceilfloor', 'round', 
 
 def main(ck):
     if ck.replay_path:
+        import json
+        rp = json.load(open(ck.replay_path))
+        if rp.get('replay', rp).get('driver') == 'C01Ext':
+            return c01_ext.replay_ext(ck, rp)
         return CC.replay(ck)
-    pr = ck.proof('C01', extra_modules=('VtlModel.Props.C01Cond',))
+    pr = ck.proof('C01', extra_modules=('VtlModel.Props.C01Cond', 'VtlModel.Props.C01Ext'))
     q = ck.quick()
     res = []
     res += CC.run_stream(ck, "single-operator", int(os.environ.get("VERIF_N", 250)) if q else 3000, dict(allow=ELEMENT), dict(depth=1))
     res += CC.run_stream(ck, 'multi-statement', 120 if q else 3000, dict(allow=ELEMENT | {'filter'}, flat=True))
     res += CC.run_stream(ck, 'nested', 100 if q else 3000, dict(allow=ELEMENT | {'filter'}))
+    res += CC.mixed_ids_stream(ck, 'mixed-identifiers', 40 if q else 600)
     hist = CC.report(ck, res)
+    c01_ext.run_ext(ck)
     ck.note('rule', 'case = (script, input data); non-trivial = model and engine agree on a non-empty result or on the '
                     'division-by-zero error; distinct by (script, data)')
     ck.cov['rule'] = ck.cov.pop('rule') if 'rule' in ck.cov else ''
